@@ -77,6 +77,7 @@ func mkOM(vals []Dec) OMEv {
 func orderVals() []Dec {
 	var v []Dec
 	v = append(v, specialDecs...)
+	v = append(v, dirtySpecials()...)
 	for _, n := range []bool{false, true} {
 		for _, e := range []int{-3, 0, 2} {
 			v = append(v, finDec(n, bigInt(0), e))
@@ -121,6 +122,9 @@ func init() {
 				y.E = x.E
 			case 1: // numerically equal, different exponents
 				k := g.R.between(1, 30)
+				if g.R.Intn(3) == 0 {
+					k = g.R.between(100, 400)
+				}
 				b := bigOfLimbs(x.C)
 				for j := 0; j < k; j++ {
 					b.Mul(b, bigInt(10))
@@ -129,6 +133,9 @@ func init() {
 			case 2: // same adjusted exponent, different digit counts: rescaled comparison
 				y = g.R.perturb(x)
 				k := g.R.between(1, 20)
+				if g.R.Intn(3) == 0 {
+					k = g.R.between(100, 400) // beyond the 128-entry power-of-ten table
+				}
 				b := bigOfLimbs(y.C)
 				for j := 0; j < k; j++ {
 					b.Mul(b, bigInt(10))
